@@ -737,10 +737,19 @@ def _merge(run, P):
         from .util import path_conditions
         for o_ in others_:
             conds = [t_ for t_, _pol in path_conditions(f.node, o_)]
-            helper = [t_ for t_ in conds if re.search(r"\b(self\.)?[a-z_]+\(", t_)
-                      and not t_.startswith("isinstance(") and "isinstance(" not in t_.split(" and ")[0][:0]]
-            helper = [t_ for t_ in conds for c_ in ast.walk(ast.parse(t_, mode="eval"))
-                      if isinstance(c_, ast.Call) and dotted(c_.func) not in ("isinstance", "len", "type")]
+            helper = []
+            for t_ in conds:
+                try:
+                    tree_ = ast.parse(t_, mode="eval")
+                except SyntaxError:
+                    tree_ = None        # an abbreviated text: look at the words
+                if tree_ is not None:
+                    if any(isinstance(c_, ast.Call) and dotted(c_.func) not in ("isinstance", "len", "type")
+                           for c_ in ast.walk(tree_)):
+                        helper.append(t_)
+                elif any(w_ not in ("isinstance", "len", "type")
+                         for w_ in re.findall(r"([A-Za-z_][\w.]*)\(", t_)):
+                    helper.append(t_)
             if helper:
                 raise AnalysisError(f"ASTSimplifyMapper.map_Block: {norm(o_)[:50]} under "
                                     f"{helper[0][:50]}; not decided")
